@@ -696,6 +696,13 @@ class TaskDispatcher(object):
                         self.orphaned_response_retention_ms
                     )
                     self.orphaned_responses[correlation_id] = (message, timeout_id)
+                    """
+                    Make sure the periodic check of orphaned responses is
+                    running, as the redelivered Task State message may already
+                    have been dispatched (before its request was reconstructed)
+                    and no other State message might follow.
+                    """
+                    self.schedule_orphaned_response_handler()
             else:
                 """
                 If the uptime is more than the retention period for orphaned
